@@ -5,7 +5,7 @@ NOTES = ("Runtime monitoring only: every check executes the real code of /repo u
          "over what was observed. VERIF_SEED changes every random choice; VERIF_TIER overrides the tier. Exit 2 = build/harness failure "
          "(never a VIOLATION line). Known findings: /verif/known_findings.json. See DESIGN.md.")
 ENGINES = [
-    {"name": "ve2e", "path": "harness/e2e", "serves_properties": ["C01", "C14", "C17", "C19"],
+    {"name": "ve2e", "path": "harness/e2e", "serves_properties": ["C01", "C10", "C14", "C17", "C18", "C19"],
      "kind_free_text": "Rust harness over the rusty-penguin library: real client_main_inner / run_listener / tls_connect on loopback sockets, raw HTTP client, scripted gate, scripted targets; quiescence witness from /proc"},
     {"name": "vmux", "path": "harness/mux", "serves_properties": ["C01", "C02", "C03", "C04", "C05", "C06", "C07", "C08", "C09", "C10", "C11", "C12", "C13", "C15", "C16", "C18", "C19", "C20"],
      "kind_free_text": "Rust harness over penguin-mux/cow-bytes/penguin-socks: PURE differential monitors, SIM (tokio current-thread, paused clock, in-memory WebSocket with wire tap and fault plan), THR, MICRO, Miri"},
@@ -22,11 +22,11 @@ TEXT = {
         "level_note": "Trusted: the reference codec's reading of PROTOCOL.md; inputs outside the generated set are not covered.",
     },
     "C18": {
-        "engine": "vmux (PURE)",
-        "technique": "differential runtime monitor: real SOCKS readers/writers vs reference RFC 1928/SOCKS4/4a grammar, every truncation point, chunked delivery",
+        "engine": "vmux (PURE) + ve2e (E2E)",
+        "technique": "differential runtime monitor: real SOCKS readers/writers vs reference RFC 1928/SOCKS4/4a grammar, every truncation point, chunked delivery; scripted SOCKS clients against the real client's SOCKS listener",
         "design_ref": "DESIGN.md §4 C18",
         "level_text": "Each generated request is fed to the real readers through a reader that delivers a few bytes per poll; result, bytes consumed (sentinel check) and every truncation "
-                      "(EOF => error, idle => still waiting, decided exactly by a waker-flag executor) are compared with a reference grammar; reply writers and the UDP relay header are compared byte-exactly / by reference parse. Exploration.",
+                      "(EOF => error, idle => still waiting, decided exactly by a waker-flag executor) are compared with a reference grammar; reply writers and the UDP relay header are compared byte-exactly / by reference parse. A second job talks to the SOCKS listener of a real client (real server and echo targets behind it) with seeded METHODS lists (NO AUTHENTICATION at any position, absent, 0 or 255 methods), commands, address types and write chunkings, and checks method selection, reply code and format, closing after a failure reply, and that the addressed target answers. Exploration.",
         "level_note": "Trusted: the reference grammar. Domain lengths 0..255 and all command/reply codes are covered systematically, the rest by seeded generation.",
     },
     "C20": {
@@ -104,14 +104,14 @@ TEXT = {
         "engine": "vmux (SIM)",
         "technique": "runtime monitor on virtual timestamps of the wire tap: ping schedule, timeout bounds, pending-operation outcomes; (I,T) grid enumerated",
         "design_ref": "DESIGN.md §4 C16, appendix A",
-        "level_text": "All (I,T) pairs of the grid x 12 pong-script kinds (constant, random and per-ping delays <= T, busy executor, silent after k rounds, never, late, disabled; never / k rounds / always again with a peer that sends Pings of its own) are executed in virtual time against a scripted raw peer; Ping times must be exactly k*I, a timeout needs >= T' of silence and must come within T'+I of the last pong for a silent peer, answered-in-time and disabled runs reach a 2000-interval horizon, and after the timeout every pending operation resolves.",
+        "level_text": "All (I,T) pairs of the whole-second grid x 12 pong-script kinds, and 12 pairs that are not whole seconds (I = 500 ms with T = 1 s, 1.5 s / 2 s, 999 ms / 1001 ms ...) x 4 kinds, (constant, random and per-ping delays <= T, busy executor, silent after k rounds, never, late, disabled; never / k rounds / always again with a peer that sends Pings of its own) are executed in virtual time against a scripted raw peer; Ping times must be exactly k*I, a timeout needs >= T' of silence and must come within T'+I of the last pong for a silent peer, answered-in-time and disabled runs reach a 2000-interval horizon, and after the timeout every pending operation resolves.",
         "level_note": "Virtual time makes the bounds exact; delays inside the grid cells are seeded samples. One open known finding (variable answer delays within T), see known_findings.json and DESIGN.md 7.5.",
     },
     "C10": {
-        "engine": "vmux (SIM)",
-        "technique": "fault enumeration of peer frame sequences (bounded-exhaustive over opcode x target, random beyond) against the real endpoint; reply-rule oracle, bystander integrity, liveness probe",
+        "engine": "vmux (SIM) + ve2e (real tokio-tungstenite adapter, paused clock)",
+        "technique": "fault enumeration of peer frame sequences (bounded-exhaustive over opcode x target, random beyond) against the real endpoint; reply-rule oracle, bystander integrity, liveness probe; hostile WebSocket-level messages through the real adapter of ws.rs",
         "design_ref": "DESIGN.md §4 C10, appendix A",
-        "level_text": "A blocked-executor watchdog turns a dead-locked connection task into a violation with a /proc witness. Every sequence up to length 2 (quick) / 3 (thorough) over 9 opcodes x 7 targets is sent by a scripted raw peer to a real endpoint holding flows in every state; replies are compared with the rules PROTOCOL.md fixes, the bystander stream must stay intact and complete, a liveness probe must pass, the task must neither return nor panic; invalid messages must end the connection with InvalidFrame and resolve everything pending.",
+        "level_text": "A blocked-executor watchdog turns a dead-locked connection task into a violation with a /proc witness. Every sequence up to length 2 (quick) / 3 (thorough) over 9 opcodes x 7 targets is sent by a scripted raw peer to a real endpoint holding flows in every state; replies are compared with the rules PROTOCOL.md fixes, the bystander stream must stay intact and complete, a liveness probe must pass, the task must neither return nor panic; invalid messages must end the connection with InvalidFrame and resolve everything pending. A second job drives the tokio-tungstenite adapter of ws.rs itself: a raw tungstenite peer sends Text of any length and content (multi-byte characters at every offset), Binary, Ping/Pong with payload, fragmented messages and Close frames to a real endpoint with operations pending; the task must not panic or hang, everything pending resolves, messages the reference decoder rejects end the connection with an error and harmless ones leave the established stream intact.",
         "level_note": "Only replies the statement/PROTOCOL.md fix are asserted; the endpoint's slot model assumes the harness application's behaviour (hold / drop at EOF).",
     },
     "C12": {
@@ -139,21 +139,21 @@ TEXT = {
         "engine": "ve2e (E2E)",
         "technique": "runtime monitor over real TLS handshakes: full configuration matrix executed through run_listener + tls_connect, recording client-certificate resolver, identity reload with a live connection",
         "design_ref": "DESIGN.md §4 C17",
-        "level_text": "All 72 cells of the statement's matrix are executed as real handshakes followed by an HTTP exchange and compared with the reference truth table; a recording resolver observes whether the server asks for a certificate; reload probes with a client that re-uses its TLS session state; a 12-cell matrix of the server name a real client asks for (client_main_inner with --tls-server-name / --hostname / neither); probes with CA bundles that contain no certificate; reload cycles (through reload_tls_identity, and through the operator's path server_main + replaced files + SIGUSR1, three or more in a row, one of them preceded by a request that fails because the key file is missing, with and without a client CA) check that new handshakes see the new identity, that the client-certificate policy is unchanged after every reload, and that an established connection keeps working. Exhaustive over the matrix.",
+        "level_text": "All 72 cells of the statement's matrix are executed as real handshakes followed by an HTTP exchange and compared with the reference truth table; a recording resolver observes whether the server asks for a certificate; reload probes with a client that re-uses its TLS session state; a 12-cell matrix of the server name a real client asks for (client_main_inner with --tls-server-name / --hostname / neither); probes with CA bundles that contain no certificate; reload cycles (through reload_tls_identity, and through the operator's path server_main + replaced files + SIGUSR1, three or more in a row, one of them preceded by a request that fails because the key file is missing, with and without a client CA; and a replacement of the client-CA bundle requested while an earlier, slow reload is still reading the old one: the last request must win) check that new handshakes see the new identity, that the client-certificate policy is unchanged after every reload, and that an established connection keeps working. Exhaustive over the matrix.",
         "level_note": "Key types: ECDSA P-256 (quick), plus P-384 and Ed25519 (thorough); native-tls build is not exercised.",
     },
     "C19": {
         "engine": "ve2e (E2E) + vmux (PURE)",
         "technique": "fault enumeration per connection attempt through a scripted gate in front of a real server, timing oracle with load / quiescence witnesses; exhaustive differential check of the back-off generator",
         "design_ref": "DESIGN.md §4 C19",
-        "level_text": "Each script of per-attempt server behaviours is executed against the real client several times; attempt counts, lower/upper delay bounds against the reference back-off, exit conditions, listener availability, survival of a local conversation across an outage / stream-request timeout and self-reconnect after an orderly Close are checked. The back-off generator itself is compared exhaustively with a reference over small tuples and reset patterns, and over 400-advance outages (a panic is a violation); E2E scripts include an outage of 100 consecutive failures, 200 local datagrams and 110 pending SOCKS requests arriving while the tunnel is down, a request outstanding when the tunnel is lost, connections that die while a parked request is retried, and a stall inside the TLS set-up.",
+        "level_text": "Each script of per-attempt server behaviours is executed against the real client several times; attempt counts, lower/upper delay bounds against the reference back-off, exit conditions, listener availability, survival of a local conversation across an outage / stream-request timeout and self-reconnect after an orderly Close are checked. The back-off generator itself is compared exhaustively with a reference over small tuples and reset patterns, and over 400-advance outages (a panic is a violation); E2E scripts include an outage of 100 consecutive failures, 200 local datagrams and 110 pending SOCKS requests arriving while the tunnel is down, a request outstanding when the tunnel is lost, connections that die while a parked request is retried, a stall inside the TLS set-up, a peer that closes in the middle of the TLS handshake or right after reading the upgrade request, and a TLS tunnel cut without close_notify.",
         "level_note": "Real time: upper bounds are tolerant, need 5 late repeats with a punctual-timer load witness, and otherwise fall back to inconclusive; scripts are a fixed set plus seeded ones in thorough.",
     },
     "C01": {
         "engine": "ve2e (E2E) + vmux (SIM)",
         "technique": "runtime monitor over real client/server executions on loopback: scripted local clients and targets, position-addressed payloads, per-conversation byte-stream and end-of-direction oracle, UDP tag/source/duplicate/header oracle",
         "design_ref": "DESIGN.md §4 C01",
-        "level_text": "Conversations of nine kinds enter through all eight TCP entry kinds (a third of the SOCKS5 clients do not wait for the proxy's replies) (fixed port, Unix socket, SOCKS4/4a, SOCKS5 v4/v6/domain, HTTP CONNECT) with seeded sizes (0 to several windows), chunking and concurrency; UDP exchanges run through the UDP remote and SOCKS5 UDP ASSOCIATE with several local sockets at once, each association addressing two different targets. UDP clients that fall silent for 11 s (longer than the relay's idle time-out) and then resume must not stay black-holed; clients that send one-way for 21 s must still get a late reply that the target sends to the address it first heard from. Conversations in which the local client goes away first (close while the target streams 48 MiB, with or without a prior half-close, with or without a pause) check that the target is not left blocked; their deterministic core (a peer that still has send credit is told within one round trip that the stream was let go) runs in the simulator (c01b). Every received byte is checked against the sender's position-addressed stream, half-close and close propagation are checked per direction, UDP replies per socket. Exploration under the OS scheduler.",
+        "level_text": "Conversations of ten kinds enter through ten TCP entry kinds (fixed port, Unix socket, SOCKS4/4a, SOCKS5 v4/v6/domain, HTTP CONNECT, and the SOCKS and HTTP front-ends on a Unix-domain socket; a third of the SOCKS5 clients do not wait for the proxy's replies) with seeded sizes (0 to several windows), chunking and concurrency; UDP exchanges run through the UDP remote and SOCKS5 UDP ASSOCIATE with several local sockets at once, each association addressing two different targets. UDP clients that fall silent for 11 s (longer than the relay's idle time-out) and then resume must not stay black-holed; clients that send one-way for 21 s must still get a late reply that the target sends to the address it first heard from. Conversations in which the local client goes away first (close while the target streams 48 MiB, with or without a prior half-close, with or without a pause) check that the target is not left blocked; conversations in which the client half-closes and the target answers but keeps its connection open check that the answer arrives anyway; their deterministic core (a peer that still has send credit is told within one round trip that the stream was let go) runs in the simulator (c01b). Every received byte is checked against the sender's position-addressed stream, half-close and close propagation are checked per direction, UDP replies per socket. Exploration under the OS scheduler.",
         "level_note": "No schedule control on real sockets; a hang needs a witness (process quiescence, or no byte of progress for 10 s on the connection), otherwise the run is inconclusive. One open known finding (target left hanging after half-close + pause + close), see known_findings.json and DESIGN.md 7.5.",
     },
 }
